@@ -114,6 +114,10 @@ impl BodyFrame {
     { unimplemented!() }
 }
 impl Incoming {
+    // hyper's Body::is_end_stream: true only when no further frame will come (false promises nothing: a chunked body that turns out
+    // to be empty is not known to be at its end before it is polled)
+    #[verifier::external_body]
+    pub fn is_end_stream(&self, Tracked(ax): Tracked<&Ax>) -> (r: bool) ensures r ==> ax.body.len() == 0 { unimplemented!() }
     // body.frame(): the next frame of the request body (ghost: ax.body), a transport error, or the end
     #[verifier::external_body]
     pub fn frame(&mut self, Tracked(ax): Tracked<&mut Ax>) -> (r: Option<Result<BodyFrame, IoError>>)
@@ -168,6 +172,7 @@ pub type HTTPResult = Result<Resp, Error>;
 #[verifier::external_body] pub fn response_404() -> (r: HTTPResult) ensures r == Ok::<Resp, Error>(Resp::NotFound404) { unimplemented!() }
 
 //@@ default_after_all: body.frame( ==> Tracked(ax),
+//@@ default_after_all: body.is_end_stream( ==> Tracked(ax),
 //@@ default_after_all: .write_all( ==> Tracked(ax),
 //@@ default_after_all: writer.commit( ==> Tracked(ax),
 //@@ default_after_all: .cas_writer( ==> Tracked(ax),
@@ -199,7 +204,7 @@ pub open spec fn total_len(chunks: Seq<Seq<u8>>) -> int decreases chunks.len() {
     if chunks.len() == 0 { 0 } else { total_len(chunks.drop_last()) + chunks.last().len() }
 }
 //@@ slice file=src/api.rs fn=handle_stream_append name=append_body_to_hash
-//@@ from: let hash = {
+//@@ from: let hash =
 //@@ through_stmt:
 //@@ strip: await
 //@@ loop_spec: while let Some(frame) = body.frame(
@@ -262,7 +267,7 @@ fn append_builds_frame(store: &Store, topic: String, context_id: Scru128Id, hash
 
 // ================= POST /cas (C10) =================
 //@@ slice file=src/api.rs fn=handle_cas_post name=cas_post_body_to_hash
-//@@ from: let hash = {
+//@@ from: let hash =
 //@@ through_stmt:
 //@@ strip: await
 //@@ loop_spec: while let Some(frame) = body.frame(
